@@ -24,7 +24,7 @@ for pid in ids:
     })
 m = {
     "version": 1,
-    "setup_cmd": "cd tools/vx-extract && CARGO_NET_OFFLINE=true cargo build --release --offline",
+    "setup_cmd": "cd tools/vx-extract && CARGO_NET_OFFLINE=true cargo build --release --offline && cd ../.. && (./check --prebuild || true)",
     "hooks": {
         "guard": "selium_verif",
         "enable": "none needed: extraction reads /repo's working tree; no hook is compiled into /repo (RUSTFLAGS='--cfg selium_verif' reserved)",
